@@ -57,6 +57,17 @@ impl Hyphenator {
         // TeX.2021.961 and onwards.
         let mut empty_value: Option<trie::Value> = None;
         for pattern in patterns.split_whitespace() {
+            // The word delimiter is the first or last *letter* of a pattern; a score outside
+            // of it is accepted and then cleared again (TeX.2021.965), so `9.ab` is `.ab`
+            // and `b3.9` is `b3.`.
+            let pattern = match pattern.trim_start_matches(|c: char| c.is_ascii_digit()) {
+                p if p.starts_with('.') => p,
+                _ => pattern,
+            };
+            let pattern = match pattern.trim_end_matches(|c: char| c.is_ascii_digit()) {
+                p if p.ends_with('.') => p,
+                _ => pattern,
+            };
             let mut vertex = self.patterns.root();
             let mut value = &mut empty_value;
             if pattern.starts_with('.') {
